@@ -272,9 +272,16 @@ structure LawfulCmp (N : Type) [NumOps N] : Prop where
   le_iff : ∀ x y : N, isNaN x = false → isNaN y = false → le x y = (lt x y || eq x y)
   gt_iff : ∀ x y : N, isNaN x = false → isNaN y = false → lt y x = (!lt x y && !eq x y)
   ge_iff : ∀ x y : N, isNaN x = false → isNaN y = false → le y x = !lt x y
+  eq_not_lt : ∀ x y : N, eq x y = true → lt x y = false
 
 theorem lawfulCmp_int : LawfulCmp Int := by
-  refine ⟨rfl, rfl, by decide, by decide, ?_, ?_, ?_⟩
+  refine ⟨rfl, rfl, by decide, by decide, ?_, ?_, ?_, ?_⟩
+  rotate_left 3
+  · intro x y h
+    have h' : x = y := by simpa [NumOps.eq] using h
+    subst h'
+    show decide (x < x) = false
+    simp
   · intro x y _ _
     show decide (x ≤ y) = (decide (x < y) || (x == y))
     rcases Int.lt_trichotomy x y with h | h | h
@@ -329,22 +336,27 @@ end norm
 def ordNum {N : Type} [NumOps N] (x y : N) : Ordering :=
   if lt x y then .lt else if eq x y then .eq else .gt
 
-/-- operand pairs on which excelize's `< <= > >=` follow Excel's order numbers < text < booleans:
-number/blank pairs (no NaN), text pairs whose ordinal order is their case-insensitive order
-(otherwise `finding_text_case`), number or blank against non-empty text, boolean pairs.
-Excluded: a boolean against anything else (`finding_bool_gt_number`), the empty text literal
-(`finding_empty_text`), error operands. -/
+/-- operand pairs on which `< <= > >=` (`calcCompare`) follow Excel's order numbers < text <
+booleans: every pair of numbers (no NaN), blanks, non-empty text and booleans, except a blank
+against FALSE (the blank is turned into the number 0 first: the rest of `cmp:bool-as-number`)
+and the empty text literal (`finding_empty_text`). -/
 def CompatOrd {N : Type} [NumOps N] : Spec.Val N → Spec.Val N → Prop
   | .num x, .num y => isNaN x = false ∧ isNaN y = false
   | .num x, .blank => isNaN x = false
   | .blank, .num y => isNaN y = false
   | .blank, .blank => True
-  | .text s, .text t => s ≠ [] ∧ t ≠ [] ∧ cmpStr s t = cmpStr (upper s) (upper t)
+  | .text s, .text t => s ≠ [] ∧ t ≠ []
   | .num _, .text t => t ≠ []
   | .text s, .num _ => s ≠ []
   | .blank, .text t => t ≠ []
   | .text s, .blank => s ≠ []
   | .bool _, .bool _ => True
+  | .bool _, .num _ => True
+  | .num _, .bool _ => True
+  | .bool _, .text t => t ≠ []
+  | .text s, .bool _ => s ≠ []
+  | .bool p, .blank => p = true
+  | .blank, .bool q => q = true
   | _, _ => False
 
 theorem ordNum_b2n {N : Type} [NumOps N] (C : LawfulCmp N) (p q : Bool) :
@@ -358,64 +370,78 @@ theorem agree_bool {N : Type} [NumOps N] (v w : Bool) (h : v = w) :
     Agree (.ok (Impl.mkBool v : Impl.Arg N)) (.bool w) := by
   subst h; simp [Agree, Impl.mkBool]
 
-/-- the four ordering operators share one proof, parametrised by what they do on two numbers,
-two strings, number/string and string/number -/
-theorem ord_agree_generic {N : Type} [NumOps N] (L : Lawful N) (C : LawfulCmp N)
-    (nn : N → N → Bool) (ss : Ordering → Bool) (ns sn : Bool) (f : Ordering → Bool)
-    (hnn : ∀ x y : N, isNaN x = false → isNaN y = false → nn x y = f (ordNum x y))
-    (hss : ∀ o, ss o = f o) (hns : ns = f .lt) (hsn : sn = f .gt)
+theorem numord_core {N : Type} [NumOps N] (L : Lawful N) (C : LawfulCmp N) (x y : N)
+    (hx : isNaN x = false) (hy : isNaN y = false) :
+    (if lt x y then Ordering.lt else if lt y x then .gt else .eq) = ordNum x y := by
+  unfold ordNum
+  by_cases h1 : lt x y = true
+  · simp [h1]
+  · have := C.gt_iff x y hx hy
+    cases h2 : eq x y <;> simp_all
+
+/-- `calcCompare` on compatible operands is Excel's three-way comparison -/
+theorem ord_core {N : Type} [NumOps N] (L : Lawful N) (C : LawfulCmp N)
     (a b : Spec.Val N) (h : CompatOrd a b) :
-    Agree (Impl.ordRes nn ss ns sn (Impl.blank0 (toImpl a)) (Impl.blank0 (toImpl b)))
-      (Spec.compare f a b) := by
+    Impl.calcCompare (Impl.blank0 (toImpl a)) (Impl.blank0 (toImpl b)) = some (Spec.cmp a b) := by
   have hz := L.nan_zero
   cases a <;> cases b <;> simp only [CompatOrd] at h
   case num.num x y =>
     rw [norm_num L, norm_num L]
-    exact agree_bool _ _ (hnn x y h.1 h.2)
-  case num.text x t =>
-    rw [norm_num L, norm_text t h]
-    exact agree_bool _ _ hns
+    simp only [Impl.calcCompare, if_true]
+    exact congrArg some (numord_core L C x y h.1 h.2)
   case num.blank x =>
     rw [norm_num L, norm_blank L]
-    exact agree_bool _ _ (hnn x zero h hz)
-  case text.num s y =>
-    rw [norm_text s h, norm_num L]
-    exact agree_bool _ _ hsn
-  case text.text s t =>
-    rw [norm_text s h.1, norm_text t h.2.1]
-    exact agree_bool _ _ (by rw [hss, h.2.2]; rfl)
-  case text.blank s =>
-    rw [norm_text s h, norm_blank L]
-    refine agree_bool _ _ ?_
-    show sn = f (cmpStr (upper s) (upper []))
-    rw [hsn]
-    have : cmpStr (upper s) (upper []) = .gt := Impl.cmpStr_nil_right _ (Impl.upper_ne_nil s h)
-    rw [this]
-  case bool.bool p q =>
-    rw [norm_bool C, norm_bool C]
-    refine agree_bool _ _ ?_
-    have h1 : isNaN (if p then one else zero : N) = false := by cases p <;> simp [L.nan_zero, L.nan_one]
-    have h2 : isNaN (if q then one else zero : N) = false := by cases q <;> simp [L.nan_zero, L.nan_one]
-    rw [hnn _ _ h1 h2, ordNum_b2n C]
-    rfl
+    simp only [Impl.calcCompare, if_true]
+    exact congrArg some (numord_core L C x zero h hz)
   case blank.num y =>
     rw [norm_blank L, norm_num L]
-    exact agree_bool _ _ (hnn zero y hz h)
-  case blank.text t =>
-    rw [norm_blank L, norm_text t h]
-    refine agree_bool _ _ ?_
-    show ns = f (cmpStr (upper []) (upper t))
-    rw [hns]
-    have : cmpStr (upper []) (upper t) = .lt := Impl.cmpStr_nil_left _ (Impl.upper_ne_nil t h)
-    rw [this]
+    simp only [Impl.calcCompare, if_true]
+    exact congrArg some (numord_core L C zero y hz h)
   case blank.blank =>
     rw [norm_blank L]
-    refine agree_bool _ _ ?_
-    rw [hnn zero zero hz hz]
     obtain ⟨_, _, a3, _⟩ := C.lt01
-    obtain ⟨b1, _, _, _⟩ := C.eq01
-    show f (ordNum zero zero) = f .eq
-    simp [ordNum, a3, b1]
+    simp [Impl.calcCompare, Spec.cmp, a3]
+  case text.text s t =>
+    rw [norm_text s h.1, norm_text t h.2]
+    rfl
+  case num.text x t =>
+    rw [norm_num L, norm_text t h]
+    rfl
+  case text.num s y =>
+    rw [norm_text s h, norm_num L]
+    rfl
+  case blank.text t =>
+    rw [norm_blank L, norm_text t h]
+    have : cmpStr (upper []) (upper t) = .lt := Impl.cmpStr_nil_left _ (Impl.upper_ne_nil t h)
+    simp [Impl.calcCompare, Spec.cmp, this]
+  case text.blank s =>
+    rw [norm_text s h, norm_blank L]
+    have : cmpStr (upper s) (upper []) = .gt := Impl.cmpStr_nil_right _ (Impl.upper_ne_nil s h)
+    simp [Impl.calcCompare, Spec.cmp, this]
+  case bool.bool p q =>
+    rw [norm_bool C, norm_bool C]
+    obtain ⟨a1, a2, a3, a4⟩ := C.lt01
+    cases p <;> cases q <;> simp [Impl.calcCompare, Spec.cmp, a1, a2, a3, a4]
+  case bool.num p y =>
+    rw [norm_bool C, norm_num L]
+    simp [Impl.calcCompare, Spec.cmp]
+  case num.bool x q =>
+    rw [norm_num L, norm_bool C]
+    simp [Impl.calcCompare, Spec.cmp]
+  case bool.text p t =>
+    rw [norm_bool C, norm_text t h]
+    simp [Impl.calcCompare, Spec.cmp]
+  case text.bool s q =>
+    rw [norm_text s h, norm_bool C]
+    simp [Impl.calcCompare, Spec.cmp]
+  case bool.blank p =>
+    subst h
+    rw [norm_bool C, norm_blank L]
+    simp [Impl.calcCompare, Spec.cmp]
+  case blank.bool q =>
+    subst h
+    rw [norm_blank L, norm_bool C]
+    simp [Impl.calcCompare, Spec.cmp]
 
 theorem compatOrd_notErr {N : Type} [NumOps N] (a b : Spec.Val N) (h : CompatOrd a b) :
     NotErr a ∧ NotErr b := by
@@ -430,144 +456,123 @@ theorem ord_agree {N : Type} [NumOps N] (L : Lawful N) (C : LawfulCmp N) (op : O
   have hne := compatOrd_notErr a b h
   have na := blank0_toImpl_ne_err L a hne.1
   have nb := blank0_toImpl_ne_err L b hne.2
+  have hc : ∀ f, Spec.compare f a b = .bool (f (Spec.cmp a b)) := by
+    intro f
+    cases a <;> cases b <;> simp_all [Spec.compare, NotErr]
+  have core := ord_core L C a b h
   rcases hop with rfl | rfl | rfl | rfl
   · rw [Impl.applyBin_lt_shape _ _ na nb]
-    refine ord_agree_generic L C _ _ _ _ (· == .lt) ?_ (fun _ => rfl) rfl rfl a b h
-    intro x y _ _
-    cases h1 : lt x y <;> cases h2 : eq x y <;> simp [ordNum, h1, h2]
+    show Agree _ (Spec.compare (· == .lt) a b)
+    rw [hc, Impl.ordRes, core]
+    exact agree_bool _ _ rfl
   · rw [Impl.applyBin_le_shape _ _ na nb]
-    refine ord_agree_generic L C _ _ _ _ (· != .gt) ?_ (fun _ => rfl) rfl rfl a b h
-    intro x y hx hy
-    rw [C.le_iff x y hx hy]
-    cases h1 : lt x y <;> cases h2 : eq x y <;> simp [ordNum, h1, h2]
+    show Agree _ (Spec.compare (· != .gt) a b)
+    rw [hc, Impl.ordRes, core]
+    exact agree_bool _ _ rfl
   · rw [Impl.applyBin_gt_shape _ _ na nb]
-    refine ord_agree_generic L C _ _ _ _ (· == .gt) ?_ (fun _ => rfl) rfl rfl a b h
-    intro x y hx hy
-    show lt y x = _
-    rw [C.gt_iff x y hx hy]
-    cases h1 : lt x y <;> cases h2 : eq x y <;> simp [ordNum, h1, h2]
+    show Agree _ (Spec.compare (· == .gt) a b)
+    rw [hc, Impl.ordRes, core]
+    exact agree_bool _ _ rfl
   · rw [Impl.applyBin_ge_shape _ _ na nb]
-    refine ord_agree_generic L C _ _ _ _ (· != .lt) ?_ (fun _ => rfl) rfl rfl a b h
-    intro x y hx hy
-    show le y x = _
-    rw [C.ge_iff x y hx hy]
-    cases h1 : lt x y <;> cases h2 : eq x y <;> simp [ordNum, h1, h2]
+    show Agree _ (Spec.compare (· != .lt) a b)
+    rw [hc, Impl.ordRes, core]
+    exact agree_bool _ _ rfl
 
-/-- operand pairs on which excelize's `=` / `<>` (comparison of `Value()` strings) is Excel's
-typed equality.  Excluded (each with its finding): two numbers whose `%g` spellings coincide
-without the numbers being equal or vice versa (`eq:negzero`), text differing in case only
-(`finding_text_case`), a number against text with the same spelling (`finding_eq_number_text`),
-the empty text literal, blank against FALSE, a boolean against the text "TRUE"/"FALSE". -/
+/-- operand pairs on which `=` / `<>` (typed comparison, `calcEqual`) is Excel's equality: every
+pair of numbers, blanks, non-empty text and booleans, except blank against FALSE (a blank is
+turned into the number 0 before the comparison: part of `cmp:bool-as-number`) and the empty
+text literal (`finding_empty_text`). -/
 def CompatEq {N : Type} [NumOps N] : Spec.Val N → Spec.Val N → Prop
-  | .num x, .num y => (fmtG x = fmtG y ↔ (lt x y = false ∧ eq x y = true))
-  | .num x, .blank => (fmtG x = fmtG (zero : N) ↔ (lt x zero = false ∧ eq x zero = true))
-  | .blank, .num y => (fmtG (zero : N) = fmtG y ↔ (lt zero y = false ∧ eq zero y = true))
+  | .num _, .num _ => True
+  | .num _, .blank => True
+  | .blank, .num _ => True
   | .blank, .blank => True
-  | .text s, .text t => s ≠ [] ∧ t ≠ [] ∧ cmpStr s t = cmpStr (upper s) (upper t)
-  | .num x, .text t => t ≠ [] ∧ fmtG x ≠ t
-  | .text s, .num y => s ≠ [] ∧ fmtG y ≠ s
-  | .blank, .text t => t ≠ [] ∧ fmtG (zero : N) ≠ t
-  | .text s, .blank => s ≠ [] ∧ fmtG (zero : N) ≠ s
+  | .text s, .text t => s ≠ [] ∧ t ≠ []
+  | .num _, .text t => t ≠ []
+  | .text s, .num _ => s ≠ []
+  | .blank, .text t => t ≠ []
+  | .text s, .blank => s ≠ []
   | .bool _, .bool _ => True
-  | .bool _, .num y => fmtG y ≠ sTRUE ∧ fmtG y ≠ sFALSE
-  | .num x, .bool _ => fmtG x ≠ sTRUE ∧ fmtG x ≠ sFALSE
-  | .bool _, .text t => t ≠ [] ∧ t ≠ sTRUE ∧ t ≠ sFALSE
-  | .text s, .bool _ => s ≠ [] ∧ s ≠ sTRUE ∧ s ≠ sFALSE
-  | .bool p, .blank => p = true ∧ fmtG (zero : N) ≠ sTRUE
-  | .blank, .bool q => q = true ∧ fmtG (zero : N) ≠ sTRUE
+  | .bool _, .num _ => True
+  | .num _, .bool _ => True
+  | .bool _, .text t => t ≠ []
+  | .text s, .bool _ => s ≠ []
+  | .bool p, .blank => p = true
+  | .blank, .bool q => q = true
   | _, _ => False
 
 theorem compatEq_notErr {N : Type} [NumOps N] (a b : Spec.Val N) (h : CompatEq a b) :
     NotErr a ∧ NotErr b := by
   cases a <;> cases b <;> simp_all [CompatEq, NotErr]
 
-theorem numeq_core {N : Type} [NumOps N] (x y : N)
-    (h : fmtG x = fmtG y ↔ (lt x y = false ∧ eq x y = true)) :
-    decide (fmtG y = fmtG x) = (ordNum x y == .eq) := by
-  have : (fmtG y = fmtG x) ↔ (lt x y = false ∧ eq x y = true) := by rw [eq_comm]; exact h
-  have e : decide (fmtG y = fmtG x) = decide (lt x y = false ∧ eq x y = true) :=
-    decide_eq_decide.mpr this
-  rw [e]
-  unfold ordNum
-  by_cases h1 : lt x y = true <;> by_cases h2 : eq x y = true <;> simp [h1, h2]
+theorem numeq_core {N : Type} [NumOps N] (C : LawfulCmp N) (x y : N) :
+    eq x y = ((if lt x y then Ordering.lt else if eq x y then .eq else .gt) == .eq) := by
+  cases h2 : eq x y
+  · by_cases h1 : lt x y = true <;> simp [h1]
+  · simp [C.eq_not_lt x y h2]
 
 theorem eq_core {N : Type} [NumOps N] (L : Lawful N) (C : LawfulCmp N) (a b : Spec.Val N)
     (h : CompatEq a b) :
-    decide (Impl.value (Impl.blank0 (toImpl b)) = Impl.value (Impl.blank0 (toImpl a))) =
-      (Spec.cmp a b == .eq) := by
+    Impl.calcEqual (Impl.blank0 (toImpl b)) (Impl.blank0 (toImpl a)) = (Spec.cmp a b == .eq) := by
   obtain ⟨a1, a2, a3, a4⟩ := C.lt01
   obtain ⟨b1, b2, b3, b4⟩ := C.eq01
-  have vnum : ∀ x : N, Impl.value (.num x false) = fmtG x := fun _ => rfl
-  have vstr : ∀ t : Str, Impl.value (.str t : Impl.Arg N) = t := fun _ => rfl
   cases a <;> cases b <;> simp only [CompatEq] at h
   case num.num x y =>
-    rw [norm_num L, norm_num L, vnum, vnum]
-    exact numeq_core x y h
+    rw [norm_num L, norm_num L]
+    exact numeq_core C x y
   case num.blank x =>
-    rw [norm_num L, norm_blank L, vnum, vnum]
-    exact numeq_core x zero h
+    rw [norm_num L, norm_blank L]
+    exact numeq_core C x zero
   case blank.num y =>
-    rw [norm_num L, norm_blank L, vnum, vnum]
-    exact numeq_core zero y h
+    rw [norm_num L, norm_blank L]
+    exact numeq_core C zero y
   case blank.blank =>
     rw [norm_blank L]
-    have := numeq_core (zero : N) zero (by simp [a3, b1])
-    simp [Spec.cmp]
+    simp [Impl.calcEqual, Spec.cmp, b1]
   case text.text s t =>
-    rw [norm_text s h.1, norm_text t h.2.1, vstr, vstr]
-    show decide (t = s) = (cmpStr (upper s) (upper t) == .eq)
-    rw [← h.2.2]
-    by_cases hst : s = t
-    · subst hst; simp [(Impl.cmpStr_eq_iff s s).mpr rfl]
-    · have h1 : ¬ t = s := fun e => hst e.symm
-      have h2 : cmpStr s t ≠ .eq := fun e => hst ((Impl.cmpStr_eq_iff s t).mp e)
-      simp [h1, h2]
+    rw [norm_text s h.1, norm_text t h.2]
+    show decide (upper s = upper t) = (cmpStr (upper s) (upper t) == .eq)
+    by_cases hst : upper s = upper t
+    · simp [hst, (Impl.cmpStr_eq_iff (upper t) (upper t)).mpr rfl]
+    · have h2 : cmpStr (upper s) (upper t) ≠ .eq := fun e => hst ((Impl.cmpStr_eq_iff _ _).mp e)
+      simp [hst, h2]
   case num.text x t =>
-    rw [norm_num L, norm_text t h.1, vnum, vstr]
-    have : ¬ t = fmtG x := fun e => h.2 e.symm
-    simp [this, Spec.cmp]
+    rw [norm_num L, norm_text t h]
+    simp [Impl.calcEqual, Spec.cmp]
   case text.num s y =>
-    rw [norm_num L, norm_text s h.1, vnum, vstr]
-    simp [h.2, Spec.cmp]
+    rw [norm_num L, norm_text s h]
+    simp [Impl.calcEqual, Spec.cmp]
   case blank.text t =>
-    rw [norm_blank L, norm_text t h.1, vnum, vstr]
-    have h1 : ¬ t = fmtG (zero : N) := fun e => h.2 e.symm
-    have h2 : cmpStr (upper []) (upper t) = .lt := Impl.cmpStr_nil_left _ (Impl.upper_ne_nil t h.1)
-    simp [h1, Spec.cmp, h2]
+    rw [norm_blank L, norm_text t h]
+    have h2 : cmpStr (upper []) (upper t) = .lt := Impl.cmpStr_nil_left _ (Impl.upper_ne_nil t h)
+    simp [Impl.calcEqual, Spec.cmp, h2]
   case text.blank s =>
-    rw [norm_blank L, norm_text s h.1, vnum, vstr]
-    have h2 : cmpStr (upper s) (upper []) = .gt := Impl.cmpStr_nil_right _ (Impl.upper_ne_nil s h.1)
-    simp [h.2, Spec.cmp, h2]
+    rw [norm_blank L, norm_text s h]
+    have h2 : cmpStr (upper s) (upper []) = .gt := Impl.cmpStr_nil_right _ (Impl.upper_ne_nil s h)
+    simp [Impl.calcEqual, Spec.cmp, h2]
   case bool.bool p q =>
-    rw [norm_bool C, norm_bool C, value_b2n C, value_b2n C]
-    cases p <;> cases q <;> simp [Spec.cmp, sTRUE, sFALSE]
+    rw [norm_bool C, norm_bool C]
+    cases p <;> cases q <;> simp [Impl.calcEqual, Spec.cmp, b1, b2, b3, b4]
   case bool.num p y =>
-    rw [norm_bool C, norm_num L, value_b2n C, vnum]
-    cases p <;> simp [Spec.cmp, h.1, h.2]
+    rw [norm_bool C, norm_num L]
+    simp [Impl.calcEqual, Spec.cmp]
   case num.bool x q =>
-    rw [norm_bool C, norm_num L, value_b2n C, vnum]
-    have h1 : ¬ sTRUE = fmtG x := fun e => h.1 e.symm
-    have h2 : ¬ sFALSE = fmtG x := fun e => h.2 e.symm
-    cases q <;> simp [Spec.cmp, h1, h2]
+    rw [norm_bool C, norm_num L]
+    simp [Impl.calcEqual, Spec.cmp]
   case bool.text p t =>
-    rw [norm_bool C, norm_text t h.1, value_b2n C, vstr]
-    cases p <;> simp [Spec.cmp, h.2.1, h.2.2]
+    rw [norm_bool C, norm_text t h]
+    simp [Impl.calcEqual, Spec.cmp]
   case text.bool s q =>
-    rw [norm_bool C, norm_text s h.1, value_b2n C, vstr]
-    have h1 : ¬ sTRUE = s := fun e => h.2.1 e.symm
-    have h2 : ¬ sFALSE = s := fun e => h.2.2 e.symm
-    cases q <;> simp [Spec.cmp, h1, h2]
+    rw [norm_bool C, norm_text s h]
+    simp [Impl.calcEqual, Spec.cmp]
   case bool.blank p =>
-    rw [norm_bool C, norm_blank L, value_b2n C, vnum]
-    obtain ⟨hp, hf⟩ := h
-    subst hp
-    simp [Spec.cmp, hf]
+    subst h
+    rw [norm_bool C, norm_blank L]
+    simp [Impl.calcEqual, Spec.cmp]
   case blank.bool q =>
-    rw [norm_bool C, norm_blank L, value_b2n C, vnum]
-    obtain ⟨hq, hf⟩ := h
-    subst hq
-    have : ¬ sTRUE = fmtG (zero : N) := fun e => hf e.symm
-    simp [Spec.cmp, this]
+    subst h
+    rw [norm_bool C, norm_blank L]
+    simp [Impl.calcEqual, Spec.cmp]
 
 /-- clause "the six comparisons", `=` and `<>` -/
 theorem eq_agree {N : Type} [NumOps N] (L : Lawful N) (C : LawfulCmp N) (op : Op)
@@ -588,11 +593,7 @@ theorem eq_agree {N : Type} [NumOps N] (L : Lawful N) (C : LawfulCmp N) (op : Op
     show Agree _ (Spec.compare (· != .eq) a b)
     rw [hc]
     refine agree_bool _ _ ?_
-    have := eq_core L C a b h
-    have e1 : decide (Impl.value (Impl.blank0 (toImpl b)) ≠ Impl.value (Impl.blank0 (toImpl a))) =
-        !decide (Impl.value (Impl.blank0 (toImpl b)) = Impl.value (Impl.blank0 (toImpl a))) := by
-      simp
-    rw [e1, this]
+    rw [eq_core L C a b h]
     rfl
 
 /-! ### the whole-tree relation and the per-node theorem -/
@@ -1054,18 +1055,9 @@ theorem mirror_compatOrd {N : Type} [NumOps N] (a b : Spec.Val N) (h : Check.com
     CompatOrd a b := by
   cases a <;> cases b <;> simp_all [Check.compatOrd, CompatOrd]
 
-theorem mirror_numEq {N : Type} [NumOps N] (x y : N) (h : Check.numEq x y = true) :
-    (fmtG x = fmtG y ↔ (lt x y = false ∧ eq x y = true)) := by
-  unfold Check.numEq at h
-  by_cases h1 : fmtG x = fmtG y <;> cases h2 : lt x y <;> cases h3 : eq x y <;> simp_all
-
 theorem mirror_compatEq {N : Type} [NumOps N] (a b : Spec.Val N) (h : Check.compatEq a b = true) :
     CompatEq a b := by
-  cases a <;> cases b <;> simp only [Check.compatEq] at h <;> simp only [CompatEq]
-  all_goals first
-    | exact mirror_numEq _ _ h
-    | trivial
-    | (simp_all)
+  cases a <;> cases b <;> simp_all [Check.compatEq, CompatEq]
 
 /-- the Boolean test the driver runs on every transcript line implies the hypothesis
 `Compatible` of `binop_agree` -/
@@ -1585,22 +1577,27 @@ open IntInst
 private def noEnv : Str → Option (Impl.CellArg Int) := fun _ => none
 private def noEnvS : Str → Option (Spec.Val Int) := fun _ => none
 
-/-- `=1="1"`: excelize compares `Value()` strings → TRUE; Excel: a number never equals text → FALSE -/
-theorem finding_eq_number_text :
-    Impl.evalTokens noEnv (render 1 (.bin .eq (.num [49]) (.text [49]))) = .ok (.num 1 true) ∧
-    Spec.eval noEnvS (.bin .eq (.num [49]) (.text [49])) = .bool false := by decide +kernel
+/-- regression (fixed in the fix window): `=1="1"` is FALSE, `="a"="A"` is TRUE on both sides -/
+theorem fixed_eq_typed :
+    Impl.evalTokens noEnv (render 1 (.bin .eq (.num [49]) (.text [49]))) = .ok (.num 0 true) ∧
+    Spec.eval noEnvS (.bin .eq (.num [49]) (.text [49])) = .bool false ∧
+    Impl.evalTokens noEnv (render 1 (.bin .eq (.text [97]) (.text [65]))) = .ok (.num 1 true) ∧
+    Spec.eval noEnvS (.bin .eq (.text [97]) (.text [65])) = .bool true := by decide +kernel
 
-/-- `="a"="A"` → FALSE and `="a"<"B"` → FALSE; Excel compares text case-insensitively: TRUE, TRUE -/
-theorem finding_text_case :
-    Impl.evalTokens noEnv (render 1 (.bin .eq (.text [97]) (.text [65]))) = .ok (.num 0 true) ∧
-    Spec.eval noEnvS (.bin .eq (.text [97]) (.text [65])) = .bool true ∧
-    Impl.evalTokens noEnv (render 1 (.bin .lt (.text [97]) (.text [66]))) = .ok (.num 0 true) ∧
-    Spec.eval noEnvS (.bin .lt (.text [97]) (.text [66])) = .bool true := by decide +kernel
-
-/-- `=TRUE>5` → FALSE (TRUE compared as the number 1); Excel: booleans rank above numbers → TRUE -/
-theorem finding_bool_gt_number :
-    Impl.evalTokens noEnv (render 1 (.bin .gt (.logical sTRUE) (.num [53]))) = .ok (.num 0 true) ∧
+/-- regression (fixed in the fix window): `="a"<"B"` is TRUE and `=TRUE>5` is TRUE on both sides -/
+theorem fixed_ordering_typed :
+    Impl.evalTokens noEnv (render 1 (.bin .lt (.text [97]) (.text [66]))) = .ok (.num 1 true) ∧
+    Spec.eval noEnvS (.bin .lt (.text [97]) (.text [66])) = .bool true ∧
+    Impl.evalTokens noEnv (render 1 (.bin .gt (.logical sTRUE) (.num [53]))) = .ok (.num 1 true) ∧
     Spec.eval noEnvS (.bin .gt (.logical sTRUE) (.num [53])) = .bool true := by decide +kernel
+
+/-- what is left of `cmp:bool-as-number`: a blank operand is turned into the number 0 before the
+comparison, so `=A5=FALSE` with blank A5 is FALSE (Excel: a blank compares as FALSE → TRUE) -/
+theorem finding_blank_false :
+    Impl.evalTokens (N := Int) (fun _ => some .empty) (render 1 (.bin .eq (.ref [65]) (.logical sFALSE))) =
+      .ok (.num 0 true) ∧
+    Spec.eval (N := Int) (fun _ => some .blank) (.bin .eq (.ref [65]) (.logical sFALSE)) = .bool true := by
+  decide +kernel
 
 /-- `=-"a"` → 0 (the failed `ToNumber` is ignored); Excel: #VALUE! -/
 theorem finding_neg_text :
